@@ -21,6 +21,7 @@ Definition out_eqb (a b : out) : bool :=
   | OCookie w r, OCookie w' r' => option_eqb N.eqb w w' && Bool.eqb r r'
   | OUser w, OUser w' => w =? w'
   | ORehash a, ORehash b => Bool.eqb a b
+  | OExp a, OExp b => option_eqb N.eqb a b
   | _, _ => false
   end.
 
